@@ -30,6 +30,8 @@ pub struct WorkerStats {
     pub probes: BTreeMap<String, u64>,
     pub quiescent_points: u64,
     pub max_in_flight: usize,
+    #[serde(default)]
+    pub max_polls: u64,
     pub virtual_time: u64,
     pub samples: Vec<serde_json::Value>,
     pub determinism_rechecks: u64,
@@ -151,6 +153,7 @@ pub fn worker(prop: &dyn Property, tier: Tier, batch_seed: u64, start: u64, step
             }
             st.quiescent_points += v.quiescent_points;
             st.max_in_flight = st.max_in_flight.max(v.max_in_flight);
+            st.max_polls = st.max_polls.max(v.max_polls);
             st.virtual_time += v.virtual_time;
             if let Some((class, detail)) = v.violation {
                 st.violations += 1;
@@ -338,6 +341,7 @@ pub fn run_check(prop: &dyn Property, tier_s: &str, cfg: &CheckConfig) -> i32 {
                 total.quiescent_points += s.quiescent_points;
                 total.virtual_time += s.virtual_time;
                 total.max_in_flight = total.max_in_flight.max(s.max_in_flight);
+                total.max_polls = total.max_polls.max(s.max_polls);
                 for (fi, path) in s.key_files.iter().enumerate() {
                     if let Ok(bytes) = std::fs::read(path) {
                         let target = if fi == 0 { &mut keys } else { &mut inter };
@@ -563,7 +567,7 @@ pub fn run_check(prop: &dyn Property, tier_s: &str, cfg: &CheckConfig) -> i32 {
         eprintln!("harness error: {} of {} in-process determinism re-checks disagreed", total.determinism_mismatches, total.determinism_rechecks);
         exit_code = exit_code.max(2);
     }
-    if total.scenarios == 0 {
+    if total.scenarios == 0 && exit_code == 0 {
         eprintln!("harness error: no scenario was executed");
         exit_code = exit_code.max(2);
     }
@@ -599,6 +603,8 @@ pub fn run_check(prop: &dyn Property, tier_s: &str, cfg: &CheckConfig) -> i32 {
             "interleaving_measure": "distinct (world hash, sequence of completed request ids / quiescent points / spurious wakes) pairs among evaluated runs",
             "quiescent_points": total.quiescent_points,
             "max_in_flight": total.max_in_flight,
+            "max_cancel_polls_in_one_solve": total.max_polls,
+            "poll_budget": 30000,
             "probes": total.probes,
             "probes_note": "tracing-derived probes (learnt_clause, backjump_*, restart_lazy_clause_conflict, analyze_unsolvable, propagation_conflict, lazy_encode_round) are counted on the sampled subset of runs given by probed_runs; the others on every run",
             "probed_runs": total.probed_runs,
